@@ -454,3 +454,146 @@ contract(
     uses=USE_ACK + USE_SF,
     inline=INLINE_CF,
 )
+
+
+# ---------------------------------------------------------------------------
+# __init__: a fresh processor satisfies the representation invariant
+# ---------------------------------------------------------------------------
+model(ERTM_M + '#new', fields={k: Any for k in ('channel', 'mps', 'peer_mps', 'peer_tx_window_size', 'peer_max_retransmission', 'monitor_timeout',
+                                                'retransmission_timeout', '_pending_pdus', '_tx_window')})
+contract(
+    ERTM_M + '.__init__',
+    prop='C08',
+    params=dict(self=Inst(ERTM_M + '#new'), channel=CHAN, peer_tx_window_size=Int, peer_max_retransmission=Int, peer_mps=Int),
+    ghost=GHOST,
+    # what the peer advertised in its configuration request: TxWindow 1..63 (Core Vol 3 Part A 5.4)
+    requires=lambda peer_tx_window_size, ghost: [1 <= peer_tx_window_size and peer_tx_window_size <= 63, ghost.iseq == 0, wire_wf(ghost)],
+    ensures=lambda self, channel, peer_tx_window_size, peer_mps, ghost: [
+        self.peer_tx_window_size == peer_tx_window_size and self.peer_mps == peer_mps and self.mps == channel.spec.mps,
+        len(self._pending_pdus) == 0 and len(self._tx_window) == 0,
+        # sequence numbers start at 0 in both directions, nothing is being reassembled, the peer is not busy
+        self._next_tx_seq == 0 and self._last_acked_tx_seq == 0 and self._req_seq_num == 0 and self._last_acked_rx_seq == 0,
+        self._in_sdu == b'' and not self._remote_is_busy and self._monitor_handle is None and self._receiver_ready_poll_handle is None,
+    ],
+    ensures_names=['parameters', 'queues-empty', 'sequence-numbers-zero', 'idle'],
+    modifies=['self.*'],
+)
+
+
+# ---------------------------------------------------------------------------
+# _PendingPdu.__bytes__ / _send_i_frame: the frame of one PDU
+# ---------------------------------------------------------------------------
+PDU1 = Inst(PDU_M, req_seq=IntRange(0, 63))
+contract(
+    PDU_M + '.__bytes__',
+    prop='C08',
+    params=dict(self=PDU1),
+    # Core Vol 3 Part A 3.3: control field, SDU length on a start frame only, then the data
+    ensures=lambda self, res: [res == iframe(self.tx_seq, self.req_seq, self.sar, 1, self.sdu_length, self.payload)],
+    ensures_names=['i-frame-layout'],
+    modifies=[],
+    inline=INLINE_CF,
+)
+
+contract(
+    ERTM_M + '._send_i_frame',
+    prop='C08',
+    params=dict(self=ERTM, pdu=Inst(PDU_M)),
+    ghost=GHOST,
+    requires=lambda self, pdu, ghost: [seqno(self._req_seq_num), pdu.tx_seq == ghost.iseq, wire_wf(ghost)],
+    ensures=lambda self, pdu, old, ghost: [
+        pdu.req_seq == self._req_seq_num,
+        ghost.sent == old.ghost.sent + [iframe(pdu.tx_seq, self._req_seq_num, pdu.sar, 1, pdu.sdu_length, pdu.payload)],
+        len(self._tx_window) == len(old.self._tx_window) + 1,
+        [col(self._tx_window, f) == col(old.self._tx_window, f) + [getattr(pdu, f)] for f in FIELDS],
+        self._last_acked_rx_seq == self._req_seq_num and self._receiver_ready_poll_handle is not None,
+        ghost.iseq == (old.ghost.iseq + 1) % 64,
+    ],
+    ensures_names=['acknowledges-what-was-received', 'frame-bytes', 'one-more-unacknowledged', 'appended-payload', 'appended-tx_seq', 'appended-sar', 'appended-sdu_length', 'timer-running', 'wire-seq-advances'],
+    modifies=['pdu.req_seq', 'self._tx_window', 'self._last_acked_rx_seq', 'self._receiver_ready_poll_handle', 'self._num_receiver_ready_polls_sent', 'ghost.cancels', 'ghost.armed'] + WIRE,
+    stubs=STUBS,
+    inline=INLINE_CF + ['EnhancedRetransmissionProcessor._start_receiver_ready_poll'],
+)
+
+
+# ---------------------------------------------------------------------------
+# timers
+# ---------------------------------------------------------------------------
+TIMER_MOD = ['self._monitor_handle', 'self._receiver_ready_poll_handle', 'self._num_receiver_ready_polls_sent', 'self._last_acked_rx_seq', 'ghost.sent', 'ghost.cancels', 'ghost.armed']
+
+
+def poll_sent(self, old, ghost):
+    """Core Vol 3 Part A 8.6.5.6/8.6.5.8 (retransmission / monitor timer expiry): an RR (or RNR) S-frame with the
+    Poll bit set is sent and the monitor timer is started; the peer answers a poll with F=1 (8.6.1.? / on_pdu above)"""
+    return [
+        ghost.sent == old.ghost.sent + [sframe_ctrl(RR, 1, self._req_seq_num, 0)],
+        self._monitor_handle is not None,
+        self._num_receiver_ready_polls_sent == old.self._num_receiver_ready_polls_sent + 1,
+    ]
+
+
+def tx_untouched(self, old):
+    return [self._last_acked_tx_seq == old.self._last_acked_tx_seq and self._next_tx_seq == old.self._next_tx_seq and self._req_seq_num == old.self._req_seq_num]
+
+
+contract(
+    ERTM_M + '._receiver_ready_poll',
+    prop='C08',
+    params=dict(self=ERTM),
+    ghost=GHOST,
+    requires=lambda self, ghost: wf(self, ghost),
+    ensures=lambda self, old, ghost: poll_sent(self, old, ghost) + wf(self, ghost),
+    ensures_names=['poll-sent-with-P=1', 'monitor-armed', 'poll-counted'] + WF_NAMES,
+    modifies=TIMER_MOD,
+    stubs=STUBS,
+    inline=INLINE_CF + ['EnhancedRetransmissionProcessor._send_receiver_ready_poll', 'EnhancedRetransmissionProcessor._start_monitor', 'EnhancedRetransmissionProcessor._send_s_frame'],
+)
+
+contract(
+    ERTM_M + '._monitor',
+    prop='C08',
+    params=dict(self=ERTM),
+    ghost=GHOST,
+    requires=lambda self, ghost: wf(self, ghost),
+    ensures=lambda self, old, ghost: [
+        # polls again unless the peer's MaxTransmit (0 = unlimited) is used up
+        implies(self.peer_max_retransmission <= 0 or old.self._num_receiver_ready_polls_sent < self.peer_max_retransmission,
+                ghost.sent == old.ghost.sent + [sframe_ctrl(RR, 1, self._req_seq_num, 0)] and self._monitor_handle is not None),
+        implies(not (self.peer_max_retransmission <= 0 or old.self._num_receiver_ready_polls_sent < self.peer_max_retransmission), ghost.sent == old.ghost.sent),
+    ] + wf(self, ghost),
+    ensures_names=['polls-again-with-P=1', 'gives-up-silently'] + WF_NAMES,
+    modifies=TIMER_MOD,
+    stubs=STUBS,
+    inline=INLINE_CF + ['EnhancedRetransmissionProcessor._send_receiver_ready_poll', 'EnhancedRetransmissionProcessor._start_monitor', 'EnhancedRetransmissionProcessor._send_s_frame'],
+)
+
+
+# ---------------------------------------------------------------------------
+# Basic mode: the processor is the identity in both directions
+# ---------------------------------------------------------------------------
+def basic_send(ghost, pdu):
+    ghost.sent = ghost.sent + [bytes(pdu)]
+
+
+model('ghost:Chan#basic', fields={}, methods={'send_pdu': Callback('send_pdu', effect=basic_send), 'on_sdu': Callback('on_sdu', effect=chan_on_sdu)})
+model('bumble.l2cap:Processor', fields=dict(channel=Inst('ghost:Chan#basic')))
+BASIC = Inst('bumble.l2cap:Processor')
+BASIC_GHOST = dict(sent=ListOf(Bytes), delivered=ListOf(Bytes))
+contract(
+    'bumble.l2cap:Processor.send_sdu',
+    prop='C08',
+    params=dict(self=BASIC, sdu=Bytes),
+    ghost=BASIC_GHOST,
+    ensures=lambda self, sdu, old, ghost: [ghost.sent == old.ghost.sent + [sdu], ghost.delivered == old.ghost.delivered],
+    ensures_names=['one-frame-carrying-the-sdu', 'nothing-delivered'],
+    modifies=['ghost.sent'],
+)
+contract(
+    'bumble.l2cap:Processor.on_pdu',
+    prop='C08',
+    params=dict(self=BASIC, pdu=Bytes),
+    ghost=BASIC_GHOST,
+    ensures=lambda self, pdu, old, ghost: [ghost.delivered == old.ghost.delivered + [pdu], ghost.sent == old.ghost.sent],
+    ensures_names=['delivered-once-unchanged', 'nothing-sent'],
+    modifies=['ghost.delivered'],
+)
